@@ -667,6 +667,10 @@ func (sd *SpecAnalyser) getRefSchemaFromSpec2(ref spec.Ref) (*spec.Schema, strin
 type CompareSchemaFn func(location DifferenceLocation, schema1, schema2 *spec.Schema)
 
 func (sd *SpecAnalyser) compareSchema(location DifferenceLocation, schema1, schema2 *spec.Schema) {
+	if schema1 == nil || schema2 == nil {
+		// e.g. the single-schema view of a tuple-typed array: nothing to compare
+		return
+	}
 
 	refDiffs := []TypeDiff{}
 	refDiffs = CheckRefChange(refDiffs, schema1, schema2)
